@@ -99,7 +99,7 @@ theorem step_row (a : List Char) (ty val : String) (t : Tok) (f : Nat) (rest : L
 def fixedOps : List Tok :=
   [.lparen, .rparen, .comma, .colon, .div, .at, .not, .forall_, .exists_, .rename] ++ BinOp.all.map Tok.op
 
-def rowOf : Tok → String × String
+def tokRowOf : Tok → String × String
   | .lparen => ("LPAREN", "(") | .rparen => ("RPAREN", ")") | .comma => ("COMMA", ",")
   | .colon => ("COLON", ":") | .div => ("DIV", "/") | .at => ("AT", "@") | .not => ("NOT", "!")
   | .forall_ => ("FORALL", "\\A") | .exists_ => ("EXISTS", "\\E") | .rename => ("RENAME", "\\S")
@@ -108,8 +108,8 @@ def rowOf : Tok → String × String
 
 theorem fixedOps_ok : (fixedOps.all fun t =>
     t.text.toList != [] && preOk (t.text.toList ++ [' ']) &&
-    longestSpelling (t.text.toList ++ [' ']) Gen.spellings none == some (rowOf t, t.text.toList.length) &&
-    tokOfRow (rowOf t).1 (rowOf t).2 == some t) = true := by decide
+    longestSpelling (t.text.toList ++ [' ']) Gen.spellings none == some (tokRowOf t, t.text.toList.length) &&
+    tokOfRow (tokRowOf t).1 (tokRowOf t).2 == some t) = true := by decide
 
 theorem step_fixed (t : Tok) (ht : t ∈ fixedOps) (f : Nat) (rest : List Char) :
     tokenizeF (f+1) (t.text.toList ++ ' ' :: rest) = t :: tokenizeF f (' ' :: rest) := by
@@ -587,8 +587,8 @@ def singles : List (Char × Tok) := [('(', .lparen), (')', .rparen), (',', .comm
 
 theorem singles_ok : (singles.all fun ct =>
     !Gen.lexIgnore.toList.contains ct.1 && !isNameStart ct.1 && !(ct.1 == '\\') && !(ct.1 == '\n') &&
-    singleFirst ct.1 (rowOf ct.2) Gen.spellings && (Gen.spellings.any fun r => r.1.toList == [ct.1]) &&
-    tokOfRow (rowOf ct.2).1 (rowOf ct.2).2 == some ct.2) = true := by decide
+    singleFirst ct.1 (tokRowOf ct.2) Gen.spellings && (Gen.spellings.any fun r => r.1.toList == [ct.1]) &&
+    tokOfRow (tokRowOf ct.2).1 (tokRowOf ct.2).2 == some ct.2) = true := by decide
 
 theorem step_single (c : Char) (t : Tok) (hct : (c, t) ∈ singles) (f : Nat) (cs : List Char)
     (hstar : c = '(' → cs.head? ≠ some '*') :
